@@ -10,5 +10,6 @@ CONSTANTS
   GenNsChoices = {FALSE}
   Spellings <- AllSpellings
   CanonNs = FALSE
+  SupportFromRootParent = FALSE
 INVARIANT Emit
 CHECK_DEADLOCK FALSE
